@@ -33,7 +33,7 @@ ShapeOK(r) ==
       [] r.op = "algname"   -> Has2(o, {"ok"})
       [] r.op = "scanindex" -> Either(o, "ok", "err")
       [] r.op = "metahist"  -> Has2(o, {"steps"}) /\ Len(o.steps) = Len(r.in.calls)
-      [] r.op = "pkgdb"     -> Has2(o, {"listed", "reads_ok"}) /\ o.reads_ok = "T"
+      [] r.op = "pkgdb"     -> Has2(o, {"open", "listed", "errors", "reads_ok"}) /\ o.reads_ok = "T" /\ o.open \in {"ok", "err"}
       [] OTHER -> FALSE
 
 Verdict(r) == IF r.abnormal = "F" /\ ShapeOK(r) THEN "ok" ELSE "bad"
